@@ -808,6 +808,7 @@ def correspond(ctx, corr, model_ok):
             work.append(('rand%d' % i, req))
 
     items = []     # (coq text, replayable case)
+    sampled = set()
     try:
         # registration cases
         reg_items = []
@@ -839,11 +840,12 @@ def correspond(ctx, corr, model_ok):
                                            'case': case, 'impl': obs})
                 continue
             items.append((c_case(index[pk], req, obs), dict(case, impl=obs)))
-            if len(corr.samples) < 4 and req['tagkind'] in ('[zz][a]', 'a,b') and req['v'] is not None \
-                    and pk == 'full' and len(corr.samples) == len({s['request']['method'] for s in corr.samples}) \
-                    and req['meth'] not in {s['request']['method'] for s in corr.samples}:
-                corr.samples.append({'program': pk, 'request': {'method': req['meth'], 'metadata': req['md'],
-                                                                'verifier(ok ids, denied routes)': req['v']},
+            cat = ('ran' if obs['calls'] else obs['res'][2]) if obs['res'][0] in ('ok', 'err') else '?'
+            if pk == 'disjoint' and req['v'] is not None and req['layout'] >= 2 and cat not in sampled \
+                    and cat in ('ran', 'WAuthRejected', 'WUnknownRoute', 'WAuthMissing', 'WEmptyTags'):
+                sampled.add(cat)
+                corr.samples.append({'table': pk, 'method': req['meth'], 'metadata': req['md']['items'],
+                                     'verifier(accepted ids, denied routes)': req['v'],
                                      'impl': {'ran': obs['calls'], 'result': obs['res']}})
     finally:
         runner.close()
